@@ -18,7 +18,7 @@ CONSTANTS Kinds, Wrappers, MaxLen,
           DevAngleNoGate,       \* a seeded change: the include gate is skipped for <...> paths
           DevFilterLastSection  \* a seeded change: the post-filter starts at the renderer's current node (the last section)
 
-RawRender == {"html_block", "html_inline", "hardbreak", "strike", "html_cblock"}   \* the renderer itself emits raw nodes (html_cblock: an HTML block that starts and ends with a comment)
+RawRender == {"html_block", "html_inline", "hardbreak", "strike", "html_cblock", "task_html"}   \* the renderer itself emits raw nodes (html_cblock: an HTML block that starts and ends with a comment)
 Inert == {"evalrst_mdsub"}         \* a MyST substitution (whose value is HTML) referenced as |key| from rST: not defined there: nothing of it reaches the tree
 RawSelf == {"raw_dir", "evalrst_raw", "evalrst_rawrole"}                   \* docutils' own code checks raw_enabled
 FileMock == {"include", "include_literal", "include_code", "include_angle"} \* MockIncludeDirective.run
